@@ -99,7 +99,10 @@ class World:
         BODY_LOG.clear()
 
     def status(self, i: str):
-        r = self.app.orchestrator.get_invocation_status_record(i)
+        try:
+            r = self.app.orchestrator.get_invocation_status_record(i)
+        except KeyError:
+            return ("<no record>", None)
         return (r.status.value, r.runner_id)
 
     def history(self, i: str) -> list[tuple[str, str | None]]:
@@ -224,6 +227,72 @@ def run_lin(ctx: Ctx, w: World, drv: LeanDriver) -> None:
     ctx.obligation(f"correspondence (a): concurrent set_invocation_status on {w.kind} linearizable to Orch.setStatus ({total} schedules)", bad == 0,
                    f"{bad} non-linearizable histories")
     ctx.notes[f"lin_schedules_{w.kind}"] = total
+
+
+def independent_invocations(ctx: Ctx, w: World) -> None:
+    """requests on DIFFERENT invocations at the same time (a runner moving X while another claims Y and a client registers Z): each
+    request is alone on its invocation, so each must simply take effect - one thread paused after each of its scheduling steps while
+    the other runs to completion, both ways round"""
+    from pynenc.invocation.status import InvocationStatus as S
+
+    total = 0
+
+    def run_one(chooser):
+        w.reset()
+        x, y = w.task(1).invocation_id, w.task(2).invocation_id
+        made: dict = {}
+        out: dict = {}
+
+        def t0() -> None:
+            for k, st in enumerate((S.PENDING, S.RUNNING)):
+                try:
+                    w.app.orchestrator.set_invocation_status(x, st, rctx("rA"))
+                    out[(0, k)] = "ok"
+                except BaseException as e:  # noqa: BLE001
+                    out[(0, k)] = _classify(e)
+
+        def t1() -> None:
+            try:
+                made["z"] = w.task(3).invocation_id
+                out[(1, 0)] = "ok"
+            except BaseException as e:  # noqa: BLE001
+                out[(1, 0)] = _classify(e)
+            try:
+                w.app.orchestrator.set_invocation_status(y, S.PENDING, rctx("rB"))
+                out[(1, 1)] = "ok"
+            except BaseException as e:  # noqa: BLE001
+                out[(1, 1)] = _classify(e)
+
+        run = w.sched.run([t0, t1], chooser)
+        z = made.get("z")
+        final = {"x": w.status(x), "y": w.status(y), "z": w.status(z) if z else None}
+        run.meta = (out, final)  # type: ignore[attr-defined]
+        return run
+
+    def directed():
+        n0 = len(run_one(PrefixChooser([0] * 5000)).choices)
+        for k in range(n0 + 1):
+            yield run_one(PrefixChooser([0] * k + [1] * 5000))
+        n1 = len(run_one(PrefixChooser([1] * 5000)).choices)
+        for k in range(0, n1 + 1):
+            yield run_one(PrefixChooser([1] * k + [0] * 5000))
+
+    want = {"x": ("running", "rA"), "y": ("pending", "rB")}
+    for run in directed():
+        total += 1
+        ctx.count()
+        ctx.distinct((w.kind, "independent-invocations", tuple(run.choices)))
+        out, final = run.meta  # type: ignore[attr-defined]
+        rep = {"scenario": "independent-invocations", "backend": w.kind, "schedule": run.choices, "outcomes": sorted(out.items()), "final": final}
+        if any(e is not None for e in run.errors) or run.aborted:
+            ctx.report(f"lin-error[{w.kind}]:independent-invocations", f"[{w.kind}] thread raised {run.errors} / aborted={run.aborted}", rep)
+            continue
+        bad = [k for k in ("x", "y") if final[k] != want[k]] + ([] if final["z"] and final["z"][0] == "registered" else ["z"]) + [str(k) for k, v in sorted(out.items()) if v != "ok"]
+        if bad:
+            ctx.report(f"requests-on-different-invocations-interfere[{w.kind}]",
+                       f"[{w.kind}] runner rA moves X to PENDING and RUNNING while a client registers Z and runner rB claims Y: outcomes {sorted(out.items())}, final records "
+                       f"X={final['x']} Y={final['y']} Z={final['z']} (expected X running/rA, Y pending/rB, Z registered; schedule {run.choices[:40]})", rep)
+    ctx.notes[f"independent_invocation_schedules_{w.kind}"] = total
 
 
 # ------------------------------------------------------------------------------------------------
@@ -364,6 +433,7 @@ def run(ctx: Ctx) -> None:
             w = World(ctx, kind)
             try:
                 run_lin(ctx, w, drv)
+                independent_invocations(ctx, w)
                 run_polls(ctx, w)
                 reregistration(ctx, w)
             finally:
